@@ -28,7 +28,7 @@ fn dev(args: &[String]) {
     let g = if aborts > 0 { dsl::Grammar::with_abort() } else { dsl::Grammar::plain() };
     let progs = dsl::terms_up_to(n, &dsl::all_atoms(), g);
     let progs: Vec<_> = progs.into_iter().filter(|p| host != HostKind::CoreLegacy || app::legacy_ok(p)).collect();
-    let bounds = seqx::Bounds { depth, items_per_stream: 2, max_aborts: aborts, max_silent: 1, max_late: 1, abort_before_start: true };
+    let bounds = seqx::Bounds { depth, items_per_stream: 2, max_aborts: aborts, max_silent: 1, max_late: 1, abort_before_start: true, max_spawn_more: 0 };
     eprintln!("{} programs", progs.len());
     let t0 = std::time::Instant::now();
     let results = mc_kit::par_map(&progs, |_, p| {
